@@ -174,6 +174,10 @@ func c04exec(c *vt.Ctx, r c04run) {
 			case "r", "dup":
 				s := slots[it.slot]
 				s.want = append(s.want, "ok:"+tok)
+				if tokens%3 == 0 {
+					// a successful reply spelt the way JSON-RPC 1.0 peers do, with an explicit null error
+					return fmt.Sprintf(`{"jsonrpc":"2.0","id":%s,"result":%q,"error":null}`, s.id, tok)
+				}
 				return fmt.Sprintf(`{"jsonrpc":"2.0","id":%s,"result":%q}`, s.id, tok)
 			case "e":
 				s := slots[it.slot]
